@@ -56,6 +56,7 @@ OBLIGATIONS = [
     "SkVerif.C04.nested_set_writes_component",
     "SkVerif.C04.nested_set_writes_named_component",
     "SkVerif.C04.replace_component_by_name",
+    "SkVerif.C04.replace_component_leaves_others",
     "SkVerif.C04.setParams_order_list_then_component",
     "SkVerif.C04.setParams_order_bare_then_nested",
     "SkVerif.C04.wf_clone_params_eq",
@@ -81,13 +82,15 @@ ASSUMPTIONS = [
 RULE = ("one table case per estimator class of the package (all, every run; unfitted calls also for every boolean / option "
         "parameter off its default, constructed, via set_params and on a clone of the fitted variant); tree cases = fixed-order exhaustive scope "
         "(every key of every depth-2 composition of the composite classes, quick: seed-rotated slice) + random compositions to depth 3 "
-        "with random histories of get/set/clone/apply + malformed keys. distinct by driver line; non-trivial = class observed "
+        "with random histories of get/set/clone/apply + malformed keys; members of named component lists are estimators or "
+        "the placeholder strings 'drop' / 'passthrough' / None (exhaustive scope: a placeholder before, between and after the "
+        "estimators), and every member of a (name, estimator, column) list is given a column that is a function of its name. distinct by driver line; non-trivial = class observed "
         "dynamically (table) / at least one successful set_params or clone (tree)")
-LEVEL_TEXT = ("proof: 30 Lean theorems (no sorry; axioms propext, Quot.sound) over ANY class table and ANY parameter tree: "
+LEVEL_TEXT = ("proof: 31 Lean theorems (no sorry; axioms propext, Quot.sound) over ANY class table and ANY parameter tree: "
               "constructor contract => get_params returns the arguments and never raises; missing parameter => absent; fresh "
               "estimator unfitted; guarded method on unfitted raises NotFittedError for every oracle; fit frame; sklearn/sktime "
               "get_params/set_params (shallow and deep round trip at every depth, nested read/write of exactly one component, "
-              "component replacement, rejection of unknown names, ordering), clone (equal parameters, nothing fitted), _check_names. "
+              "component replacement that leaves every other member - estimator or placeholder - and its position alone, rejection of unknown names, ordering), clone (equal parameters, nothing fitted), _check_names. "
               "Tie to the code: the class table (160 classes: constructor bodies through the MRO, fitted-state guards of 7 apply-type "
               "methods, parameters written by fit) is regenerated from the source by an AST translator on every run and each class "
               "summary is re-established by the kernel (decide +kernel); for the 147 importable classes the summary's predictions are "
@@ -1202,7 +1205,7 @@ def oracle_tree(case, real):
             _, kind, where, after = o_.split(":")
             fails.append(("%s:member-%s:%s" % (root, kind, after),
                           "a member of a (name, estimator, column) list of %s stands on another column than it was given "
-                          "(%s) %s: history %s" % (root, where, after, " ".join(case["ops"])[:300])))
+                          "(%s) %s: tree %s history %s" % (root, where, after, case["tree"][:400], " ".join(case["ops"])[:300])))
     # nested form reads the component's parameter: get_params(deep=True) of the untouched composition
     if case["ops"] and case["ops"][0] == "get:T" and outs and not outs[0].startswith("E:"):
         try:
